@@ -207,6 +207,19 @@ impl Default for Stack {
     }
 }
 
+
+/// Verification hooks (cargo feature `verif-hooks`). Add-only.
+#[cfg(feature = "verif-hooks")]
+impl Stack {
+    pub fn verif_new(stack: Vec<VCell>, sp: usize) -> Stack {
+        Stack { stack, sp }
+    }
+
+    pub fn verif_cells(&self) -> &[VCell] {
+        &self.stack
+    }
+}
+
 #[cfg(test)]
 mod tests {
     use super::*;
